@@ -397,3 +397,12 @@ def with_helpers(program, func: FuncInfo, stmts: Optional[Sequence[ast.AST]] = N
         nodes = [n for s in stmts for n in ast.walk(s)]
     add(func, nodes, depth)
     return out
+
+
+def returned_name(func: FuncInfo, default: Optional[str] = None) -> Optional[str]:
+    """The local that the function hands back (``return eligible``): the name of its result, whatever it is called.  The last
+    ``return <name>`` wins; *default* if the function returns no plain name."""
+    rets = [r for r in own_nodes(func.node) if isinstance(r, ast.Return) and isinstance(r.value, ast.Name)]
+    if not rets:
+        return default
+    return sorted(rets, key=lambda r: r.lineno)[-1].value.id
